@@ -69,6 +69,51 @@ CLAIMED = {
              "pairing, deeper sampled).",
         technique="TLA+ fold rules checked for soundness by TLC; TLC-generated policies with specified outcomes replayed into "
                   "the folding compiler and the unfolded evaluator; TLC trace validation"),
+    "C05": dict(
+        category="model_checking",
+        text="spec/Batch.tla defines what the callback log must be (one callback per element of the Cartesian product of the "
+             "value lists as a multiset, the substituted request -- substitution reaches nested records, sets and every "
+             "occurrence --, the substitution, and the ordinary authorizer's decision and reason set; exactly k callbacks and the "
+             "callback's / context's error under a fault at k; nothing for an empty list; an error for unbound or unused "
+             "variables). MC_Batch model-checks the enumeration algorithm (sorting by list length, one recursion level per "
+             "variable, save/restore, context check, error propagation) against it for every fault plan. Concrete batch "
+             "requests with the expected multiset are replayed into batch.Authorize with copying / failing / cancelling "
+             "callbacks, each Result.Request also authorized by cedar.Authorize; random templates are validated by TLC "
+             "(Trace_Batch).",
+        design_ref="DESIGN.md 4 C05",
+        note=TRUSTED + "Callback order is free. Decisions come from the TLA+ evaluator and Authz (C01, C02). Pruning by staged "
+             "partial evaluation is not modelled separately: its invisibility is what the replay against the abstract "
+             "definition checks, its soundness is C06.",
+        technique="TLA+ model of the batch enumeration model-checked under every fault plan; TLC-generated batch requests with "
+                  "expected callback multisets replayed into batch.Authorize; TLC trace validation of random batches"),
+    "C06": dict(
+        category="model_checking",
+        text="spec/Partial.tla states soundness without modelling the algorithm: for every completion of the unknowns (same "
+             "value for every occurrence of a name; candidates: entities for request positions, whole records for the context, "
+             "values of several kinds for nested unknowns) a kept residual is satisfied exactly when the original is, a dropped "
+             "policy is never satisfied, and with an ignored part a permit stays satisfiable. TLC enumerates policies of the "
+             "expression universe x 13 partial-environment shapes, the real PartialPolicy supplies keep/residual, and TLC "
+             "evaluates original and residual (with the C01 evaluator) under every completion. Random policies/environments "
+             "likewise.",
+        design_ref="DESIGN.md 4 C06",
+        note=TRUSTED + "Completions come from finite candidate universes; an unsoundness that needs a value outside them is "
+             "missed. Error nodes in residuals mean 'evaluation fails'. Forbid policies with ignored parts are unconstrained.",
+        technique="TLA+ soundness predicate evaluated by TLC over all completions on residuals produced by the real partial "
+                  "evaluator (TLC-generated inputs, recorded outputs, TLC validation)"),
+    "C20": dict(
+        category="model_checking",
+        text="spec/PolicyStore.tla is the container as a state machine (two PolicySet handles, a PolicyMap copy; New, Load, Add, "
+             "Remove, Get, Map, mutate-the-copy, MarshalCedar, JSON round trip), each action with the return value the id-keyed "
+             "map model predicts and a projection of the whole state including cedar.Authorize results for probe requests. TLC "
+             "checks refinement/isolation invariants on the bounded state graph, emits EVERY history up to 3 (thorough 4) "
+             "operations and long simulated behaviours, which are replayed on real objects with comparison after each step; "
+             "random histories of 50-500 operations recorded from the real objects are validated against the unchanged "
+             "PolicyStore actions (Trace_Store).",
+        design_ref="DESIGN.md 4 C20",
+        note=TRUSTED + "Policies in containers are recognised by an annotation. Exhaustive for histories <= 3 (4) operations "
+             "over 2 handles, 2-3 ids, 4 policies, 4 documents; sampled beyond.",
+        technique="TLA+ state machine of the policy container; exhaustive TLC-generated histories and simulated behaviours "
+                  "replayed on real PolicySets; TLC trace validation of recorded random histories against the same actions"),
 }
 
 PENDING ="check under construction in this session (the specification modules it needs are being written; see DESIGN.md 10)"
